@@ -86,7 +86,8 @@ theorem bundle_replay_far_witness :
 
 Sender: any pool reachable from the empty pool (`poolRun`) whose ghost log (`poolLog`: block registrations +
 `CertCreated` events, `Proofs/PoolWiring.lean`) is `Consistent` (C07/C08 premise: the finality inputs are `Safe`, no
-skip certificate for a finalized slot, the only finalized block of slot 0 is genesis), recovery triggered after this — i.e. after *every* prefix of every such
+skip certificate for a directly finalized slot, the only finalized block of slot 0 is genesis — met by every pool of a valid
+cluster run: `Cluster.cluster_pools_consistent`), recovery triggered after this — i.e. after *every* prefix of every such
 history.  Receiver: the empty pool of the same epoch, fed the bundle's certificates (`add_cert`) and own votes
 (`add_vote`) in **any order**, with repetitions, every certificate at least once.
 
@@ -228,7 +229,7 @@ theorem bundle_replay_parents_needs_nf_agree :
     ParentReady.parentsReady (replayCV e (bundleOf p)).pr 4 = [(1, 7)] := by
   decide
 
-/-- **"no skip certificate for a finalized slot" is necessary**: block (2,9) is fast-finalized although slot 2 is
+/-- **"no skip certificate for a directly finalized slot" is necessary**: block (2,9) is fast-finalized although slot 2 is
     skip-certified; the sender still answers (1,7) for window start 4 (through the skip certificates of 2 and 3), the
     bundle starts at slot 2. -/
 theorem bundle_replay_parents_needs_consistent :
